@@ -197,6 +197,9 @@ def gen_cases(rng, lzo, tier):
         head = [re.sub(r"fbmode=\d", "fbmode=2", head[0])] + head[1:]
         W, H = s["size"]
         eos = rng.choice(["eof", "eof", "eagain"])
+        # a session of the known finding cpixel-depth is parsed differently by the library (3-byte CPIXELs):
+        # its message boundaries are not the generator's, so "cut inside a message => FALSE" cannot be claimed
+        exact_bounds = c07.finding_of(s) is None
         allz = [zl for zs, _ in msgs for zl in zs]
         # (a) truncation: inside the handshake
         for _k in range(2):
@@ -220,7 +223,7 @@ def gen_cases(rng, lzo, tier):
             if cut in bounds or cut == 0:
                 continue
             out.append({"script": build_script(head, eos, hs, [], stream[:cut], zlines=allz), "kind": "trunc-msg",
-                        "expect_false": True, "tag": "trunc:msg"})
+                        "expect_false": True if exact_bounds else None, "tag": "trunc:msg"})
         # (c) grammar-aware mutation of one message, the rest of the session follows
         for _k in range(6 if tier == "quick" else 25):
             if not msgs:
